@@ -325,14 +325,24 @@ package logdb
 //@ ghostset gKR := k.greplica
 //@ ghostset gKI := k.gindex
 //@ ghostset gKBuf := ptr(result)
-//@ func (r *cache) getLastBatch [C10]
-//@ trusted in-memory cache bookkeeping
+// verified (was trusted): a hit hands back a copy of exactly the entries cached for THIS replica (index and term, in
+// order); a miss says so
+//@ func (r *cache) getLastBatch [C10 C09]
+//@ noframe
+//@ free requires mk(raftio.NodeInfo, shardID, replicaID) in r.lastEntryBatch ==> disjoint(lb.Entries, r.lastEntryBatch[mk(raftio.NodeInfo, shardID, replicaID)].Entries)
+//@ ensures result1 == old(mk(raftio.NodeInfo, shardID, replicaID) in r.lastEntryBatch)
+//@ ensures result1 ==> len(result0.Entries) == old(len(r.lastEntryBatch[mk(raftio.NodeInfo, shardID, replicaID)].Entries))
+//@ ensures result1 ==> (forall i int :: 0 <= i && i < len(result0.Entries) ==> result0.Entries[i].Index == old(r.lastEntryBatch[mk(raftio.NodeInfo, shardID, replicaID)].Entries[i].Index) && result0.Entries[i].Term == old(r.lastEntryBatch[mk(raftio.NodeInfo, shardID, replicaID)].Entries[i].Term))
 // gLBcalls / gLBptr / gLBlen: how often the last-batch cache was refreshed, and with which batch
 //@ ghost var gLBcalls int
 //@ ghost var gLBptr int
 //@ ghost var gLBlen int
+// verified (was trusted): afterwards the cache holds, for THIS replica, a private copy of exactly the given entries
 //@ func (r *cache) setLastBatch [C10 C09]
-//@ trusted in-memory cache bookkeeping
+//@ noframe
+//@ free requires r.lastEntryBatch != nil && (mk(raftio.NodeInfo, shardID, replicaID) in r.lastEntryBatch ==> disjoint(eb.Entries, r.lastEntryBatch[mk(raftio.NodeInfo, shardID, replicaID)].Entries))
+//@ ensures mk(raftio.NodeInfo, shardID, replicaID) in r.lastEntryBatch && len(r.lastEntryBatch[mk(raftio.NodeInfo, shardID, replicaID)].Entries) == len(eb.Entries)
+//@ ensures forall i int :: 0 <= i && i < len(eb.Entries) ==> r.lastEntryBatch[mk(raftio.NodeInfo, shardID, replicaID)].Entries[i].Index == old(eb.Entries[i].Index) && r.lastEntryBatch[mk(raftio.NodeInfo, shardID, replicaID)].Entries[i].Term == old(eb.Entries[i].Term)
 //@ modifies gLBcalls, gLBptr, gLBlen
 //@ ghostset gLBcalls := old(gLBcalls) + 1
 //@ ghostset gLBptr := ptr(eb.Entries)
